@@ -433,10 +433,14 @@ fn main() {
             let nsess = rng.range(1, 4) as usize;
             let sess: Vec<(UDPEndpoint, u64, Vec<Vec<u8>>)> = (0..nsess).map(|k| (ep(k % 4), 1 + (k as u64 / 2), mini_session(1 + (k as u64 / 2), Fec::NoCode, 40, 9))).collect();
             let steps = rng.range(8, 40) as usize;
+            // one case in five: sessions also end by EXPIRY (2 ms timeout, cleanup() after a sleep of 25 ms, at most three
+            // times) - every registered listener must be told, not only one of them
+            let with_timeout = i % 5 == 0;
             let r = util::guarded(|| {
                 let call = Rc::new(RefCell::new(0usize));
                 let (b, _wl) = MonBuilder::new(Script::default());
-                let mut rx = MultiReceiver::new(b, Some(RxConfig { object_timeout: None, session_timeout: None, ..Default::default() }), false);
+                let mut rx = MultiReceiver::new(b, Some(RxConfig { object_timeout: None, session_timeout: if with_timeout { Some(Duration::from_millis(2)) } else { None }, ..Default::default() }), false);
+                let mut sleeps = 0;
                 let ref_log: Rc<RefCell<Vec<(usize, LEv)>>> = Rc::new(RefCell::new(vec![]));
                 rx.add_listener(RecListener { log: ref_log.clone(), call: call.clone() });
                 // (id returned, log, first call seen, first call no longer seen)
@@ -464,6 +468,12 @@ fn main() {
                             let cs = flute::verif::new_alc_pkt_close_session(&0u128, sess[s].1);
                             let _ = rx.push(&sess[s].0, &cs, util::at(1000));
                             ops.push(format!("close-session packet {}", s));
+                        }
+                        4 if with_timeout && sleeps < 3 => {
+                            sleeps += 1;
+                            std::thread::sleep(Duration::from_millis(25));
+                            rx.cleanup(util::at(2000));
+                            ops.push("sleep 25 ms + cleanup".into());
                         }
                         _ => {
                             let s = rng.below(nsess as u64) as usize;
